@@ -708,12 +708,9 @@ BINARY = [n for n, s in STAGES.items() if s.arity == 2]
 # known_findings.jsonl; each rule names the findings file with the reproducer).  A rule matches a (inner stage, outer stage)
 # edge of a pipeline: outer / inner = stage name or None (any), lifted = True: only in the '.lifted' structure classes.
 EXCLUSIONS = [
-    # view::matmul(a, optional view): the lifting branch copies the concrete operand (unwrap returns by value) and keeps a
-    # pointer to the dead copy -> findings/c10_lifted_matmul_dangling_operand.md
-    dict(outer="matmul", inner=None, lifted=True, file="findings/c10_lifted_matmul_dangling_operand.md"),
-    # view::softmax(optional array): aliased() of a temporary copy of the array (staged side of the lifted pipelines)
-    # -> findings/c10_lifted_softmax_optional_array.md
-    dict(outer="softmax", inner=None, lifted=True, file="findings/c10_lifted_softmax_optional_array.md"),
+    # (none at present.  The two classes excluded while they were being triaged - lifted pipelines with outer matmul / softmax over an
+    #  optional operand - were genuine library defects, repaired in /repo by 50825f1 and 6fec610 (findings/c10_lifted_matmul_dangling_operand.md,
+    #  findings/c10_lifted_softmax_optional_array.md, known_findings.jsonl status "fixed") and are generated again.)
 ]
 
 
